@@ -17,6 +17,8 @@ package handshake
 //@ ghost hsChecked Bool stable
 //@ ghost hsCheckedAt Int stable
 //@ ghost hsClosed Bool stable
+// the error code of the last acknowledgement frame decoded from the wire
+//@ ghost hsPeerAck Int stable
 //@ func io.ReadFull
 //@   modifies object arg1
 //@   ensures result1 == nil ==> result0 == len(arg1)
@@ -45,6 +47,7 @@ package handshake
 //@ func (*github.com/anyproto/any-sync/net/secureservice/handshake/handshakeproto.Ack).UnmarshalVT
 //@   modifies object arg0
 //@   modifies kinds uint8
+//@   sets hsPeerAck = arg0.Error
 //@ func (*github.com/anyproto/any-sync/net/secureservice/handshake/handshakeproto.Proto).UnmarshalVT
 //@   modifies object arg0
 //@   modifies kinds uint8 uint32
@@ -83,6 +86,7 @@ package handshake
 //@   ensures [resets_cred]    h.remoteCred.Type == 0 && len(h.remoteCred.Payload) == 0
 //@   ensures [resets_version] h.remoteCred.Version == 0 && h.remoteCred.ClientVersion == ""
 //@   ensures [resets_acks]    h.localAck.Error == 0 && h.remoteAck.Error == 0
+//@   ensures [ack_log_kept]   hsPeerAck == old(hsPeerAck)
 //@   ensures [resets_proto]   h.remoteProto.Proto == 0 && len(h.remoteProto.Encodings) == 0
 
 // readMsg: only whitelisted frame types, bounded size, bounded buffer growth.
@@ -99,27 +103,32 @@ package handshake
 //@   ensures [keeps_sep]        hsep(h)
 //@   ensures [two_reads]        err == nil ==> hsReads == old(hsReads) + 2 && hsLastReadAt >= old(hsSeq) && hsLastReadAt < hsSeq
 //@   ensures [ghost_frame]      hsWrites == old(hsWrites) && hsLastWriteAt == old(hsLastWriteAt) && hsChecked == old(hsChecked) && hsCheckedAt == old(hsCheckedAt) && hsSeq >= old(hsSeq) && hsReads >= old(hsReads)
+//@   ensures [ack_code_logged]  err == nil && msg.ack != nil ==> hsPeerAck == msg.ack.Error
 
 // writers: one successful write per frame
 //@ func (*handshake).writeData
 //@   requires hwf(h) && hsep(h) && h.conn != nil && 0 <= size && size + 5 <= len(h.buf)
 //@   ensures [one_write]   err == nil ==> hsWrites == old(hsWrites) + 1 && hsLastWriteAt >= old(hsSeq) && hsLastWriteAt < hsSeq
 //@   ensures [ghost_frame] hsReads == old(hsReads) && hsLastReadAt == old(hsLastReadAt) && hsChecked == old(hsChecked) && hsCheckedAt == old(hsCheckedAt) && hsSeq >= old(hsSeq) && hsWrites >= old(hsWrites)
+//@   ensures [ack_log_kept] hsPeerAck == old(hsPeerAck)
 //@   ensures [keeps_pool]  hsep(h) && h.remoteCred == old(h.remoteCred) && h.remoteAck == old(h.remoteAck) && h.localAck == old(h.localAck) && h.remoteProto == old(h.remoteProto) && h.conn == old(h.conn)
 //@ func (*handshake).writeCredentials
 //@   requires hwf(h) && hsep(h) && h.conn != nil && cred != nil
 //@   ensures [one_write]   err == nil ==> hsWrites == old(hsWrites) + 1 && hsLastWriteAt >= old(hsSeq) && hsLastWriteAt < hsSeq
 //@   ensures [ghost_frame] hsReads == old(hsReads) && hsLastReadAt == old(hsLastReadAt) && hsChecked == old(hsChecked) && hsCheckedAt == old(hsCheckedAt) && hsSeq >= old(hsSeq) && hsWrites >= old(hsWrites)
+//@   ensures [ack_log_kept] hsPeerAck == old(hsPeerAck)
 //@   ensures [keeps_pool]  hsep(h) && h.remoteCred == old(h.remoteCred) && h.remoteAck == old(h.remoteAck) && h.localAck == old(h.localAck) && h.remoteProto == old(h.remoteProto) && h.conn == old(h.conn)
 //@ func (*handshake).writeAck
 //@   requires hwf(h) && hsep(h) && h.conn != nil
 //@   ensures [one_write]   err == nil ==> hsWrites == old(hsWrites) + 1 && hsLastWriteAt >= old(hsSeq) && hsLastWriteAt < hsSeq
 //@   ensures [ghost_frame] hsReads == old(hsReads) && hsLastReadAt == old(hsLastReadAt) && hsChecked == old(hsChecked) && hsCheckedAt == old(hsCheckedAt) && hsSeq >= old(hsSeq) && hsWrites >= old(hsWrites)
+//@   ensures [ack_log_kept] hsPeerAck == old(hsPeerAck)
 //@   ensures [keeps_pool]  hsep(h) && h.remoteCred == old(h.remoteCred) && h.remoteAck == old(h.remoteAck) && h.localAck == old(h.localAck) && h.remoteProto == old(h.remoteProto) && h.conn == old(h.conn)
 //@ func (*handshake).tryWriteErrAndClose
 //@   requires hwf(h) && hsep(h) && h.conn != nil
 //@   ensures [always_closes] hsClosed
 //@   ensures [ghost_frame] hsReads == old(hsReads) && hsLastReadAt == old(hsLastReadAt) && hsChecked == old(hsChecked) && hsCheckedAt == old(hsCheckedAt)
+//@   ensures [ack_log_kept] hsPeerAck == old(hsPeerAck)
 //@   ensures [keeps_pool]  hsep(h) && h.remoteCred == old(h.remoteCred) && h.remoteAck == old(h.remoteAck) && h.localAck == old(h.localAck) && h.remoteProto == old(h.remoteProto) && h.conn == old(h.conn)
 
 // The four-message exchange. Success of the initiator means: our credentials were written, the
@@ -135,6 +144,7 @@ package handshake
 //@   ensures [ok_four_reads]    err == nil ==> hsReads == old(hsReads) + 4
 //@   ensures [ok_order]         err == nil ==> hsCheckedAt < hsLastWriteAt && hsLastWriteAt < hsLastReadAt
 //@   ensures [ok_stays_open]    err == nil ==> hsClosed == old(hsClosed)
+//@   ensures [ok_peer_accepted] err == nil ==> hsPeerAck == 0
 //@   ensures [released]         h.conn == nil && h.remoteCred.Version == 0 && h.remoteCred.ClientVersion == "" && h.remoteCred.Type == 0 && len(h.remoteCred.Payload) == 0 && h.remoteAck.Error == 0 && h.localAck.Error == 0
 //@ func incomingHandshake
 //@   requires hwf(h) && hsep(h) && conn != nil && cc != nil
@@ -144,6 +154,7 @@ package handshake
 //@   ensures [ok_four_reads]    err == nil ==> hsReads == old(hsReads) + 4
 //@   ensures [ok_order]         err == nil ==> hsCheckedAt < hsLastReadAt && hsLastReadAt < hsLastWriteAt
 //@   ensures [ok_stays_open]    err == nil ==> hsClosed == old(hsClosed)
+//@   ensures [ok_peer_accepted] err == nil ==> hsPeerAck == 0
 //@   ensures [released]         h.conn == nil && h.remoteCred.Version == 0 && h.remoteCred.ClientVersion == "" && h.remoteCred.Type == 0 && len(h.remoteCred.Payload) == 0 && h.remoteAck.Error == 0 && h.localAck.Error == 0
 
 // The pool's constructor creates the separately allocated parts the contracts above rely on.
